@@ -160,6 +160,28 @@ func (t *barrierRT) RoundTrip(req *http.Request) (*http.Response, error) {
 	return t.inner.RoundTrip(req)
 }
 
+// urlRT: answers every URL with its own body, after the barrier (op CC)
+type urlRT struct {
+	bodies map[string]string
+	b      *barrier
+	log    string
+}
+
+func (t *urlRT) RoundTrip(req *http.Request) (*http.Response, error) {
+	var body []byte
+	if req.Body != nil {
+		body, _ = io.ReadAll(req.Body)
+	}
+	t.log = "D:" + hx([]byte(req.URL.String())) + ":" + hx(body)
+	t.b.arrive()
+	h, ok := t.bodies[req.URL.String()]
+	if !ok {
+		return &http.Response{StatusCode: 404, Proto: "HTTP/2.0", Header: http.Header{}, Body: io.NopCloser(strings.NewReader(""))}, nil
+	}
+	return &http.Response{StatusCode: 200, Proto: "HTTP/2.0", Header: http.Header{},
+		Body: io.NopCloser(&bodyReader{b: unhx(h)})}, nil
+}
+
 // ---------------------------------------------------------------- DNS53 upstream
 type udpSrv struct {
 	pc     net.PacketConn
@@ -311,6 +333,90 @@ func execHistory(f []string, srv *udpSrv) (string, bool) {
 				delete(cache.m, k)
 			}
 			out = append(out, "x"+b01(had))
+		case g[0] == "CC" && len(g) == 6:
+			// CC,<profA>,<profB>,<payload>,<bodyA>,<bodyB>: the SAME question asked at the same moment by
+			// a client of profile A and a client of profile B (IDs differ); the upstream answers each URL
+			// with its own body, and only when both requests have arrived. Started under the resolver's
+			// own mutex like C. Each must be sent to and answered from its own profile's URL.
+			pa, pb := string(unhx(g[1])), string(unhx(g[2]))
+			payA := unhx(g[3])
+			if len(payA) < 12 {
+				return "bad-query", true
+			}
+			payB := append([]byte{}, payA...)
+			payB[0] ^= 0x01
+			payB[1] ^= 0x01
+			qa, errA := query.New(append([]byte{}, payA...), loopback, loopback)
+			qb, errB := query.New(payB, loopback, loopback)
+			if errA != nil || errB != nil {
+				return "bad-query", true
+			}
+			cache.curMeta = vMeta{qsec: append([]byte{}, qSection(qa.Payload)...), name: qa.Name}
+			dns.DOH.URL = ""
+			idA := qa.ID
+			dns.DOH.GetProfileURL = func(q query.Query) (string, string) {
+				if q.ID == idA {
+					return cacheProfilePrefix + pa, pa
+				}
+				return cacheProfilePrefix + pb, pb
+			}
+			bar := &barrier{n: 2, ch: make(chan struct{})}
+			bodies := map[string]string{cacheProfilePrefix + pa: g[4], cacheProfilePrefix + pb: g[5]}
+			var results [2]callRes
+			var rts [2]*urlRT
+			var bufs [2][]byte
+			var wg sync.WaitGroup
+			unlock := dns.VerifCacheHoldMu()
+			for i, q := range []query.Query{qa, qb} {
+				i, q := i, q
+				rts[i] = &urlRT{bodies: bodies, b: bar}
+				bufs[i] = make([]byte, bufLen)
+				wg.Add(1)
+				go func() {
+					defer wg.Done()
+					defer func() {
+						if x := recover(); x != nil {
+							results[i].pnc = x
+						}
+					}()
+					results[i].n, results[i].i, results[i].err = dns.VerifCacheDOH(context.Background(), q, bufs[i], rts[i])
+				}()
+			}
+			time.Sleep(30 * time.Millisecond)
+			unlock()
+			wg.Wait()
+			var toks []string
+			for i := 0; i < 2; i++ {
+				if results[i].pnc != nil {
+					out = append(out, fmt.Sprintf("PANIC:%v", results[i].pnc))
+					return strings.ReplaceAll(strings.Join(out, " "), "\n", " "), true
+				}
+				up := "-"
+				if rts[i].log != "" {
+					up = rts[i].log
+				}
+				tr := results[i].i.Transport
+				if tr == "" {
+					tr = "-"
+				}
+				n := results[i].n
+				if n < 0 {
+					n = 0
+				}
+				if n > bufLen {
+					n = bufLen
+				}
+				al := "-"
+				if up == "-" && results[i].err == nil {
+					al = "0"
+					if cache.lastGet == nil {
+						al = "none"
+					}
+				}
+				toks = append(toks, fmt.Sprintf("fc=%s,err=%s,tr=%s,n=%s,up=%s,al=%s",
+					b01(results[i].i.FromCache), b01(results[i].err != nil), tr, hx(bufs[i][:n]), up, al))
+			}
+			out = append(out, "cc,"+strings.Join(toks, "+"))
 		case g[0] == "C" && len(g) >= 5:
 			// C,<n>,<profilehex>,<payload>,<out…>: n identical DoH queries of one profile in flight
 			// together. They are started while the resolver's own mutex is held and released at
@@ -402,7 +508,7 @@ func execHistory(f []string, srv *udpSrv) (string, bool) {
 			if same {
 				out = append(out, fmt.Sprintf("c%d,", nb)+toks[0])
 			} else {
-				out = append(out, "cdiff,"+strings.Join(toks, "/"))
+				out = append(out, "cdiff,"+strings.Join(toks, "+"))
 			}
 		case (g[0] == "D" && len(g) >= 6) || (g[0] == "N" && len(g) >= 3):
 			var payload []byte
@@ -808,6 +914,19 @@ func (g *cacheGen) history() string {
 		stored = append(stored, len(ops)-1)
 		ts = append(ts, target{"p", pa}, target{"p", pb})
 		c.Stat("op:burst")
+		if r.Chance(60) {
+			// and two clients of two further new profiles ask that question at the same moment
+			pc, pd := fmt.Sprintf("%06x", r.Intn(1<<24)), fmt.Sprintf("%06x", r.Intn(1<<24))
+			if pc != pd {
+				id3 := r.Intn(65536)
+				b3, _ := g.response(id3, qsec, q.typ, q.class)
+				b4, _ := g.response(id3^0x0101, qsec, q.typ, q.class)
+				ops = append(ops, fmt.Sprintf("CC,%s,%s,%s,%s,%s", hx([]byte(pc)), hx([]byte(pd)), hx(g.query(q, id3)), hx(b3), hx(b4)))
+				stored = append(stored, len(ops)-1)
+				ts = append(ts, target{"p", pc}, target{"p", pd})
+				c.Stat("op:pair-two-profiles")
+			}
+		}
 	}
 	for i := 0; i < nops; i++ {
 		k := r.Intn(100)
